@@ -219,6 +219,23 @@ fn scenarios(variant: usize, thorough: bool) -> Vec<Scenario> {
             cwd: "repo",
             colocated: false,
         },
+        // a tracked-but-ignored file in the NEW tree: ign/f is tracked first, then ign/ is
+        // added to .gitignore; @ moves from a commit without ign/f to the one that has it
+        Scenario {
+            name: "edit-ignored",
+            setup: vec![
+                sv(&["!", "ign/f", "tracked before it was ignored\n"]),
+                sv(&["commit", "-m", "I1"]),
+                sv(&["!", ".gitignore", "ign/\n"]),
+                sv(&["commit", "-m", "I2"]),
+                sv(&["bookmark", "create", "ig", "-r", "@-"]),
+                sv(&["new", "root()", "-m", "elsewhere"]),
+            ],
+            edits: vec![],
+            cmd: sv(&["edit", "ig"]),
+            cwd: "repo",
+            colocated: false,
+        },
     ];
     if thorough {
         all.push(Scenario {
@@ -403,6 +420,9 @@ fn run_scenario(sc: &Scenario, root: &Path, jj: &Path, variant: usize) -> (Strin
     run(&repo, &["bookmark", "create", "bm", "-r", "@-"]);
     for s in &sc.setup {
         if s[0] == "!" {
+            if let Some(parent) = repo.join(&s[1]).parent() {
+                std::fs::create_dir_all(parent).unwrap();
+            }
             std::fs::write(repo.join(&s[1]), &s[2]).unwrap();
             run(&repo, &["status"]);
         } else if let Some(ws) = s[0].strip_prefix("!@") {
@@ -461,6 +481,28 @@ fn run_scenario(sc: &Scenario, root: &Path, jj: &Path, variant: usize) -> (Strin
         info.parents.push(ps);
     }
     let head_before = index[&before[0].0];
+
+    // tracked files (path -> content) of the working-copy commit at the operation before the
+    // command and at every new operation of the uncrashed run
+    let tree_at_op = |dir: &Path, op: &str| -> BTreeMap<String, Vec<u8>> {
+        let l = env.jj(dir, &["file", "list", "--ignore-working-copy", "--at-op", op, "-r", "@"], seed0 + 2, &[]);
+        let mut m = BTreeMap::new();
+        for p in l.stdout.lines() {
+            let f = env.jj(dir, &["file", "show", "--ignore-working-copy", "--at-op", op, "-r", "@", p], seed0 + 2, &[]);
+            m.insert(p.to_string(), f.stdout.into_bytes());
+        }
+        m
+    };
+    let mut op_seq: Vec<usize> = vec![head_before];
+    op_seq.extend(nbefore..info.ids.len());
+    let wc_trees: Vec<(usize, BTreeMap<String, Vec<u8>>)> =
+        op_seq.iter().map(|&o| (o, tree_at_op(&refdir.join(sc.cwd), &info.ids[o]))).collect();
+    let mut wc_changed: Vec<usize> = vec![];
+    for w in wc_trees.windows(2) {
+        if w[0].1 != w[1].1 {
+            wc_changed.push(w[1].0);
+        }
+    }
 
     // ---- classify the reference trace
     let refroot = refdir.to_string_lossy().to_string();
@@ -637,6 +679,20 @@ fn run_scenario(sc: &Scenario, root: &Path, jj: &Path, variant: usize) -> (Strin
                     if !tok {
                         *all_tables_ok.lock().unwrap() = false;
                     }
+                    // the recovered working-copy commit must have the tree it has at one of
+                    // the operations of the uncrashed run: nothing tracked silently disappears.
+                    // (status has just snapshotted: a tracked path's content is what is on disk)
+                    let tracked = env.jj(&ws, &["file", "list", "--ignore-working-copy", "-r", "@"], seed0 + 9, &[]);
+                    let mut now_tree: BTreeMap<String, Vec<u8>> = BTreeMap::new();
+                    for p in tracked.stdout.lines() {
+                        now_tree.insert(p.to_string(), files_now.get(p).cloned().unwrap_or_default());
+                    }
+                    let tree_at = wc_trees
+                        .iter()
+                        .rev()
+                        .find(|(_, t)| tracked.code == Some(0) && *t == now_tree)
+                        .map(|(o, _)| *o)
+                        .unwrap_or(999);
                     let sig_now = signature(&env, &ws, seed0 + 9);
                     // The recovery may ADD commits (update-stale snapshots what it finds on disk
                     // next to the command's result); nothing of the before- or after-state
@@ -659,7 +715,7 @@ fn run_scenario(sc: &Scenario, root: &Path, jj: &Path, variant: usize) -> (Strin
                         }
                     };
                     let term = format!(
-                        "(C15.mk_obs {n} {} {} {} {current} {} {checkout} {} {} {} {state})",
+                        "(C15.mk_obs {n} {} {} {} {current} {} {checkout} {} {} {} {tree_at} {state})",
                         coq::b(aborted),
                         coq::b(loads),
                         coq::b(ops_kept),
@@ -677,7 +733,7 @@ fn run_scenario(sc: &Scenario, root: &Path, jj: &Path, variant: usize) -> (Strin
     let obs: Vec<String> = results.into_inner().unwrap().into_iter().map(|x| x.unwrap()).collect();
     let mism = trace_mismatch.load(Ordering::SeqCst);
     let term = format!(
-        "(C15.mk_case {} {} {} {} [{}] [{}] {} {} {})%nat",
+        "(C15.mk_case {} {} {} {} [{}] [{}] {} {} {} {})%nat",
         nbefore,
         coq::list(info.parents.iter(), |ps| coq::list(ps.iter(), |p| format!("{p}"))),
         head_before,
@@ -687,6 +743,7 @@ fn run_scenario(sc: &Scenario, root: &Path, jj: &Path, variant: usize) -> (Strin
         coq::b(*all_tables_ok.lock().unwrap() && mism == 0 && ref_ok),
         coq::b(sc.colocated),
         coq::b(sig_changed),
+        coq::list(wc_changed.iter(), |o| format!("{o}")),
     );
     let n_wc = effects.iter().filter(|e| e.contains("EWc")).count();
     let n_ops = effects.iter().filter(|e| e.contains("EOp ")).count();
@@ -708,7 +765,7 @@ fn main() {
         let scratch = std::fs::canonicalize(&ctx.scratch).unwrap();
         for i in ctx.indices() {
             let thorough = ctx.tier == "thorough";
-            let per = if thorough { 15 } else { 12 };
+            let per = if thorough { 16 } else { 13 };
             let variant = i / per;
             let scs = scenarios(variant, thorough);
             let sc = &scs[i % scs.len()];
@@ -716,7 +773,7 @@ fn main() {
             let r = jjv::catch(|| run_scenario(sc, &root, &jj, variant));
             let (term, shape, nontrivial, notes) = r.unwrap_or_else(|| {
                 (
-                    "(C15.mk_case 0 [] 0 0 [] [] false false false)%nat".to_string(),
+                    "(C15.mk_case 0 [] 0 0 [] [] false false false [])%nat".to_string(),
                     format!("{} HARNESS-PANIC", sc.name),
                     false,
                     vec![],
